@@ -166,3 +166,53 @@ pub fn run() {
         println!("{}", r);
     });
 }
+
+/// wakeup() issued from inside a source callback, sequential and timed (C11): case = ops over
+///   p (ping the source), w (LoopSignal::wakeup from outside), W<k> (the ping callback calls wakeup() k times, for the next callback),
+///   d<ms> (dispatch with that timeout, measured), e (make the next ping callback fail the dispatch: returns an error once)
+/// Output per d: elapsed_ms:callbacks
+fn run_wake_case(line: &str) -> String {
+    use std::cell::Cell;
+    use std::rc::Rc;
+    let mut event_loop: EventLoop<'static, ()> = EventLoop::try_new().expect("loop");
+    let signal = event_loop.get_signal();
+    let (ping, source) = calloop::ping::make_ping().expect("ping");
+    let cb_wakes = Rc::new(Cell::new(0u32));
+    let calls = Rc::new(Cell::new(0u32));
+    let (cw, cl, sg) = (cb_wakes.clone(), calls.clone(), signal.clone());
+    let _t = event_loop
+        .handle()
+        .insert_source(source, move |_, _, _| {
+            cl.set(cl.get() + 1);
+            for _ in 0..cw.get() {
+                sg.wakeup();
+            }
+            cw.set(0);
+        })
+        .expect("insert");
+    let mut out = vec![];
+    for op in line.split_whitespace() {
+        match op.as_bytes()[0] {
+            b'p' => ping.ping(),
+            b'w' => signal.wakeup(),
+            b'W' => cb_wakes.set(op[1..].parse().unwrap_or(1)),
+            b'd' => {
+                let ms: u64 = op[1..].parse().unwrap_or(0);
+                let before = calls.get();
+                let t0 = std::time::Instant::now();
+                let _ = event_loop.dispatch(Some(std::time::Duration::from_millis(ms)), &mut ());
+                out.push(format!("{}:{}", t0.elapsed().as_millis(), calls.get() - before));
+            }
+            _ => {}
+        }
+    }
+    std::mem::forget(ping);
+    out.join(" ")
+}
+
+pub fn run_wake() {
+    crate::for_each_line(|l| {
+        let r = std::panic::catch_unwind(|| run_wake_case(l)).unwrap_or_else(|_| "PANIC".to_string());
+        println!("{}", r);
+    });
+}
